@@ -21,6 +21,20 @@ Definition qnth (v : vec) (i : nat) : Q := nth i v 0.
 Definition bool_mrows (name vn : string) (off : nat) (I : list nat) : list mrow :=
   map (fun p => Build_mrow (off + fst p) name None "i" (snd p) 1 vn true) (combine (seq 0 (List.length I)) I).
 
+
+(* the unit-commitment rows as stand-alone definitions (PlantRows.v proves what they mean) *)
+Definition pl_rows_start (on_idx start_idx T tar : nat) : list crow :=
+  map (fun i => {| r_a := [((on_idx + i + 1)%nat, 1); ((on_idx + i)%nat, -1); ((start_idx + i + 1)%nat, -1)]; r_t := RU; r_b := 0 |}) (seq 0 (T - 1)%nat) ++
+  (if Nat.eqb tar 0 then [ {| r_a := [(on_idx, 1); (start_idx, -1)]; r_t := RS; r_b := 0 |} ] else []).
+Definition pl_rows_rt (on_idx start_idx T R : nat) : list crow :=
+  flat_map (fun t => flat_map (fun i => if Nat.leb i t then [ {| r_a := [((on_idx + t)%nat, 1); ((start_idx + t - i)%nat, -1)]; r_t := RL; r_b := 0 |} ] else [])
+                              (seq 1 (R - 1)%nat)) (seq 0 T).
+Definition pl_rows_dt (on_idx T D toff : nat) : list crow :=
+  flat_map (fun t => flat_map (fun i => if Nat.leb i t then
+       [ {| r_a := [((on_idx + t)%nat, 1); ((on_idx + t - i)%nat, -1)] ++ (if Nat.ltb i t then [((on_idx + t - i - 1)%nat, 1)] else []);
+            r_t := RU; r_b := if negb (Nat.ltb i t) && Nat.eqb toff 0 then 0 else 1 |} ] else [])
+                              (seq 1 (D - 1)%nat)) (seq 0 T).
+
 Definition plant (g : grid) (rg : rgrid) (cp : contract_p) (mx mn : list take) (p : plant_p) : option aprob :=
   obind (contract_core g rg cp mx mn) (fun base =>
   let P := ap_lp base in
@@ -92,20 +106,9 @@ Definition plant (g : grid) (rg : rgrid) (cp : contract_p) (mx mn : list take) (
         [ {| r_a := vrow 0%nat 1 (qnth cf 0%nat); r_t := RL; r_b := if Nat.eqb (pl_tar p) 0 then last else Qred (last - rmp) |};
           {| r_a := vrow 0%nat 1 (qnth cf 0%nat) ++ (if inc_on then [(on_idx, - rmp)] else []); r_t := RU; r_b := if inc_on then last else Qred (last + rmp) |} ]
       end in
-    let rows_start := if inc_start then
-        map (fun i => {| r_a := [((on_idx + i + 1)%nat, 1); ((on_idx + i)%nat, -1); ((start_idx + i + 1)%nat, -1)]; r_t := RU; r_b := 0 |}) (seq 0 (T - 1)%nat) ++
-        (if Nat.eqb (pl_tar p) 0 then [ {| r_a := [(on_idx, 1); (start_idx, -1)]; r_t := RS; r_b := 0 |} ] else [])
-      else [] in
-    let rows_rt := if inc_start && Nat.ltb 1 (pl_R p) then
-        flat_map (fun t => flat_map (fun i => if Nat.leb i t then [ {| r_a := [((on_idx + t)%nat, 1); ((start_idx + t - i)%nat, -1)]; r_t := RL; r_b := 0 |} ] else [])
-                                    (seq 1 (pl_R p - 1)%nat)) (seq 0 T)
-      else [] in
-    let rows_dt := if Nat.ltb 1 (pl_D p) then
-        flat_map (fun t => flat_map (fun i => if Nat.leb i t then
-             [ {| r_a := [((on_idx + t)%nat, 1); ((on_idx + t - i)%nat, -1)] ++ (if Nat.ltb i t then [((on_idx + t - i - 1)%nat, 1)] else []);
-                  r_t := RU; r_b := if negb (Nat.ltb i t) && Nat.eqb (pl_toff p) 0 then 0 else 1 |} ] else [])
-                                    (seq 1 (pl_D p - 1)%nat)) (seq 0 T)
-      else [] in
+    let rows_start := if inc_start then pl_rows_start on_idx start_idx T (pl_tar p) else [] in
+    let rows_rt := if inc_start && Nat.ltb 1 (pl_R p) then pl_rows_rt on_idx start_idx T (pl_R p) else [] in
+    let rows_dt := if Nat.ltb 1 (pl_D p) then pl_rows_dt on_idx T (pl_D p) (pl_toff p) else [] in
     let rows_heat := match has_heat, sh with
       | true, Some s => map (fun i => {| r_a := [((heat_idx + i)%nat, 1); (i, - qnth s i)]; r_t := RU; r_b := 0 |}) (seq 0 n)
       | _, _ => [] end in
